@@ -150,6 +150,12 @@ func (r *refEval) node(n *Node, e *env) []string {
 				r.flags[fpSubNeg] = true
 				giveUp("negative index in a sub-expression: undocumented")
 			}
+			if n.I >= e.nv && n.I < len(e.v) {
+				// {1} inside @map/@filter: nothing is bound to it. Like every group that does not exist it reads
+				// as empty; in particular not as the value a previous @reduce/@for left in a pooled context.
+				r.flags["sub-unbound-index"] = true
+				return []string{""}
+			}
 			if n.I >= e.nv {
 				giveUp("{i} beyond the documented bindings of a sub-expression")
 			}
